@@ -1002,7 +1002,7 @@ def local_names(query, table_names=None):
     """the `names` the live cut works with: lower-cased table aliases and CTE names of a real tree (and, if the
     planner does so, own names of unaliased tables), collected with the real walker"""
     if table_names is None:
-        table_names = table_names_are_local()
+        table_names = True      # the live model (bd15793); a planner that regresses diverges and is reported
     from mindsdb_sql.planner.utils import query_traversal
     out = []
 
